@@ -135,12 +135,27 @@ class Flow:
             return fun("as_" + p[1], 1)(v)
         raise Unsupported("projection " + repr(p))
 
+    def referent(self, P, a):
+        """the value a reference argument points to (references into locals, and references into an unknown pointer's referent)"""
+        if isinstance(a, Ref):
+            return self.read(P, a.local, list(a.path))
+        if isinstance(a, tuple) and a and a[0] == "refinto":
+            v = fun("deref", 1)(self.term(a[1]))
+            for p in a[2]:
+                v = self.project(P, v, p)
+            return v
+        return a
+
     def term(self, v):
         """z3 term of a value (aggregates become constructor applications)"""
         if isinstance(v, tuple) and v and v[0] == "agg":
             return fun("mk_" + re.sub(r"\W+", "_", v[1]), len(v[2]))(*[self.term(x) for x in v[2]])
         if isinstance(v, Ref):
             raise Unsupported("reference used as a value")
+        if isinstance(v, tuple) and v and v[0] == "refinto":
+            return fun("ref", 1)(self.term(self.referent(None, v)))
+        if isinstance(v, tuple) and v and v[0] == "disc":
+            return fun("discriminant_value", 1)(v[1])
         return v
 
     def write(self, P, local, proj, val):
@@ -188,6 +203,16 @@ class Flow:
         m = re.match(r"^(?:no_retag )?(copy|move) ", txt)
         if m or txt.startswith("const "):
             return self.operand(P, txt)
+        m = re.match(r"^(Add|Sub|Mul|Div|Rem|BitAnd|BitOr|BitXor|Shl|Shr|Eq|Ne|Lt|Le|Gt|Ge|AddWithOverflow|SubWithOverflow|MulWithOverflow|Offset|Cmp)\((.*)\)$", txt)
+        if m:
+            parts = split_top(m.group(2))
+            return fun("op_" + m.group(1), len(parts))(*[self.term(self.operand(P, x)) for x in parts])
+        m = re.match(r"^(Not|Neg|PtrMetadata)\((.*)\)$", txt)
+        if m:
+            return fun("op_" + m.group(1), 1)(self.term(self.operand(P, m.group(2))))
+        m = re.match(r"^(.*) as ([\w:<>&' ]+) \((\w+)\)$", txt)
+        if m:       # casts
+            return fun("cast_" + re.sub(r"\W+", "_", m.group(2)), 1)(self.term(self.operand(P, m.group(1))))
         if txt.startswith("[") and txt.endswith("]"):
             parts = [x for x in split_top(txt[1:-1]) if x.strip()]
             return ("agg", "array%d" % len(parts), [self.operand(P, x) for x in parts])
@@ -217,9 +242,13 @@ class Flow:
         m = re.match(r"^(\w[\w:<>, ]*?)\((.*)\)$", txt)      # variant constructor  Option::<T>::Some(x)
         if m and "::" in m.group(1):
             return ("agg", re.sub(r"::<.*?>", "", m.group(1)), [self.operand(P, x) for x in split_top(m.group(2)) if x.strip()])
+        if re.fullmatch(r"[\w:<>]+", txt):      # a unit variant / unit struct
+            return const("unit_" + re.sub(r"\W+", "_", txt))
         raise Unsupported("rvalue: " + txt[:80])
 
     # ---- execution
+    stop_calls = ()
+
     def run(self, entry, stop_at, pre=None, pc=None):
         """all paths from block `entry` until a block in `stop_at` is entered again / `return`; returns [(Path, end block)]"""
         P = Path()
@@ -273,8 +302,8 @@ class Flow:
         m = re.match(r"^switchInt\((.*?)\) -> \[(.*)\]$", st)
         if m:
             v = self.operand(P, m.group(1))
-            if not (isinstance(v, tuple) and v[0] == "disc"):
-                raise Unsupported("switchInt on a non-discriminant")
+            if not (isinstance(v, tuple) and v and v[0] == "disc"):
+                v = ("disc", fun("switch_value", 1)(self.term(v)))     # a bool / integer: branch on its (uninterpreted) value
             arms = []
             for part in split_top(m.group(2)):
                 k, tgt = part.split(":")
@@ -316,6 +345,9 @@ class Flow:
                         start = i
                         break
             callee = call[:start].strip()
+            if any(re.search(pat, callee) for pat in self.stop_calls):
+                P.calls.append(("STOP:" + callee, [], None))
+                return "return"
             args = [self.operand(P, a) for a in split_top(call[start + 1:k]) if a.strip()]
             res = None
             for pat, eff in self.effects.items():
